@@ -96,9 +96,10 @@ def generate(repo):
     hmod = ast.unparse(ast.parse(open(os.path.join(repo, 'lentil/helper.py')).read()))    # normalised: formatting and comments do not matter
     out = []
     tr = FnTranslator(None, _method(mod, 'Plane', 'fit_tilt'), {'params': []}, {}, {})
-    # ---------------- helper.mesh: index minus floor(n/2) (textual guard; the model uses `cc`)
-    if 'np.arange(nr) - np.floor(nr / 2.0) - shift[0]' not in hmod or 'np.arange(nc) - np.floor(nc / 2.0) - shift[1]' not in hmod:
-        raise Refuse('helper.mesh: coordinates are no longer arange(n) - floor(n/2) - shift')
+    # ---------------- helper.mesh: the coordinates themselves are regenerated (Gen/Mesh.lean, spec c20) and tied to the model's `cc` by
+    # theorem C04.ptt_mesh_is_generated; here only the defaults that theorem instantiates (`shift=(0, 0)`, `angle=0`) are guarded
+    if 'def mesh(shape, shift=(0, 0), angle=0):' not in hmod:
+        raise Refuse('helper.mesh: signature/defaults are no longer mesh(shape, shift=(0, 0), angle=0)')
     # ---------------- ptt_vector
     pv = _method(mod, 'Plane', 'ptt_vector')
     if ast.unparse(_one([n for n in ast.walk(pv) if isinstance(n, ast.Assign) and ast.unparse(n.targets[0]) in ('(r, c)', 'r, c')], 'ptt_vector: r, c').value) != 'lentil.helper.mesh(self.shape)':
@@ -122,6 +123,39 @@ def generate(repo):
                f'def pttSegRows (mask : Int) : Int × Int :=\n  {_islice(tr, ms.targets[0].slice, {"mask": S("mask")})}\n')
     # ---------------- fit_tilt
     ft = _method(mod, 'Plane', 'fit_tilt')
+    # the early return (`return plane` untouched) and ptt_vector's `None` branch: boolean tests over named atoms
+    def btest(e, atoms):
+        if isinstance(e, ast.BoolOp) and isinstance(e.op, (ast.Or, ast.And)):
+            return '(' + (' || ' if isinstance(e.op, ast.Or) else ' && ').join(btest(v, atoms) for v in e.values) + ')'
+        if isinstance(e, ast.UnaryOp) and isinstance(e.op, ast.Not): return f'(!{btest(e.operand, atoms)})'
+        if isinstance(e, ast.Compare) and len(e.ops) == 1:
+            l, o, r = ast.unparse(e.left), e.ops[0], e.comparators[0]
+            key = (l, type(o).__name__, ast.unparse(r))
+            if key in atoms: return atoms[key]
+            if (l, 'int') in atoms and isinstance(r, ast.Constant) and isinstance(r.value, int) and not isinstance(r.value, bool):
+                cmpo = {ast.Eq: '=', ast.NotEq: '≠', ast.Lt: '<', ast.LtE: '≤', ast.Gt: '>', ast.GtE: '≥'}.get(type(o))
+                if cmpo is None: raise Refuse('comparison ' + ast.unparse(e))
+                return f'decide ({atoms[(l, "int")]} {cmpo} {r.value})'
+        raise Refuse('boolean test ' + ast.unparse(e)[:60])
+    ftb = [n for n in ft.body if not (isinstance(n, ast.Expr) and isinstance(n.value, ast.Constant))]
+    early = [i for i, n in enumerate(ftb) if isinstance(n, ast.If) and any(isinstance(x, ast.Return) for x in n.body)]
+    isz = [i for i, n in enumerate(ftb) if isinstance(n, ast.If) and ast.unparse(n.test) == 'self.size == 1']
+    ipv = [i for i, n in enumerate(ftb) if isinstance(n, ast.Assign) and ast.unparse(n) == 'ptt_vector = plane.ptt_vector']
+    if len(early) != 1 or len(isz) != 1 or len(ipv) != 1 or not (ipv[0] < early[0] < isz[0]):
+        raise Refuse('fit_tilt: expected `ptt_vector = plane.ptt_vector`, then one early-return test, then the `self.size == 1` branch')
+    er = ftb[early[0]]
+    if [ast.unparse(x) for x in er.body] != ['return plane'] or er.orelse: raise Refuse('fit_tilt: the early return is no longer a bare `return plane`')
+    out.append(f'/-- translated from `plane.py:Plane.fit_tilt` (line {er.lineno}): the test under which the plane is returned as it is (no fit, nothing recorded);\n'
+               f'`ptt_none` = `ptt_vector is None`, `opd_size` = `plane.opd.size` -/\n'
+               f'def fitTiltSkips (ptt_none : Bool) (opd_size : Int) : Bool :=\n  '
+               f'{btest(er.test, {("ptt_vector", "Is", "None"): "ptt_none", ("ptt_vector", "IsNot", "None"): "(!ptt_none)", ("plane.opd.size", "int"): "opd_size"})}\n')
+    pvm = _method(mod, 'Plane', 'ptt_vector')
+    pvb = [n for n in pvm.body if isinstance(n, ast.If)]
+    if len(pvb) != 1 or [ast.unparse(x) for x in pvb[0].body] != ['ptt_vector = None']: raise Refuse('ptt_vector: the `ptt_vector = None` branch changed')
+    out.append(f'/-- translated from `plane.py:Plane.ptt_vector` (line {pvb[0].lineno}): when there is no basis (`ptt_vector = None`); `shape_empty` = `self.shape == ()`,\n'
+               f'`shape_none` = `self.shape is None` -/\n'
+               f'def pttVectorNone (shape_empty shape_none : Bool) : Bool :=\n  '
+               f'{btest(pvb[0].test, {("self.shape", "Eq", "()"): "shape_empty", ("self.shape", "Is", "None"): "shape_none"})}\n')
     br = _one([n for n in ast.walk(ft) if isinstance(n, ast.If) and ast.unparse(n.test) == 'self.size == 1'], 'fit_tilt: size branch')
     single, seg = br.body, br.orelse
     src1 = [ast.unparse(s) for s in single]
